@@ -544,11 +544,40 @@ func checkValidatesFirst(c *Ctx, fi *FuncInfo, body *ast.BlockStmt, key string, 
 	info := fi.Info()
 	f := newFlow(info, body)
 	pm := parentMap(body)
+	// a package-local helper all of whose successful returns pass a used validation call validates too
+	helperValidates := func(fn *types.Func, _ *ast.CallExpr) bool {
+		if fn.Pkg() == nil || fn.Pkg().Path() != fi.Pkg.PkgPath {
+			return false
+		}
+		g := c.FuncInfoOf(fn)
+		if g == nil || g.Decl.Body == nil || g == fi {
+			return false
+		}
+		ginfo := g.Info()
+		gf := newFlow(ginfo, g.Decl.Body)
+		gpm := parentMap(g.Decl.Body)
+		gVal := func(n ast.Node) bool {
+			if isDeferOrGo(n) {
+				return false
+			}
+			call := nodeHasCall(ginfo, n, isValidateCall)
+			return call != nil && resultUsed(ginfo, g.Decl.Body, call)
+		}
+		okRet := func(n ast.Node) bool { return isReturn(n) && !inErrBranch(ginfo, gpm, n) }
+		if len(gf.find(gVal)) == 0 {
+			return false
+		}
+		_, skipped := gf.reach([]point{gf.entry()}, gVal, okRet, true)
+		return !skipped
+	}
 	isVal := func(n ast.Node) bool {
 		if isDeferOrGo(n) {
 			return false
 		}
-		call := nodeHasCall(info, n, isValidateCall)
+		if call := nodeHasCall(info, n, isValidateCall); call != nil && resultUsed(info, body, call) {
+			return true
+		}
+		call := nodeHasCall(info, n, helperValidates)
 		return call != nil && resultUsed(info, body, call)
 	}
 	var target nodePred
